@@ -193,6 +193,29 @@ def residual_identity(full):
     return len(fa) == 2 and len(ra) == 2 and fa[1] == ra[1]
 
 
+def slice_base(e):
+    """the collection behind a slice expression: `&v[..]`, `v.as_slice()`, auto-deref of a Vec all denote v's elements"""
+    while isinstance(e, tuple):
+        if e[0] in ("ref", "deref"):
+            e = e[1]
+        elif e[0] == "call" and len(e[3]) == 1 and e[1] in ("std::ops::Deref::deref", "std::ops::DerefMut::deref_mut", "std::vec::Vec::<T, A>::as_slice", "std::vec::Vec::<T, A>::as_mut_slice"):
+            e = e[3][0]
+        else:
+            break
+    return e
+
+
+def ordering_const(e):
+    """-1/0/1 for a constant std::cmp::Ordering value (a unit-variant aggregate or a promoted constant), else None"""
+    if e[0] == "agg" and e[1] == "adt" and e[2].startswith("std::cmp::Ordering::"):
+        return {"Less": -1, "Equal": 0, "Greater": 1}.get(e[2].rsplit("::", 1)[-1])
+    if e[0] == "const" and "Ordering" in str(e[1]):
+        for nm, v in (("Less", -1), ("Equal", 0), ("Greater", 1)):
+            if str(e[2]).endswith(nm) or str(e[2]).endswith(nm + "}"):
+                return v
+    return None
+
+
 def residual_conversion(full):
     """`<Result<T, F> as FromResidual<Result<Infallible, E>>>::from_residual` applies `<F as From<E>>::from` to the error"""
     p = _as_parts(full)
@@ -379,6 +402,34 @@ class Models:
             fid = self.from_impl(full)
             if fid is not None and fid != self.w.fn.id:
                 return self.apply(("fnitem", fid, fid, fid), (a[0],), site, known) if self._inlinable(fid) else None
+        # ---- slices: the accessors are defined by the length of the slice (the same conditions a slice pattern tests) ----
+        if path.startswith("core::slice::<impl [T]>::") and a:
+            sl = slice_base(a[0])
+            LEN = ("len", sl)
+            def ge(k):
+                return ("binop", "Ge", LEN, ("const", "usize", "%d_usize" % k, k))
+            if n == "split_first" and len(a) == 1:
+                outs = []
+                for v, c, k in split_bool(ge(1), known):
+                    outs.append(Out(c, [], SOME(("agg", "tuple", "tuple", (("ref", ("index", deref(sl), ("const", "usize", "0", 0)), False),
+                                                                           ("ref", ("subslice", deref(sl), 1, 0, True), False)))) if v else NONE, k))
+                return outs
+            if n == "first" and len(a) == 1:
+                return [Out(c, [], SOME(("ref", ("index", deref(sl), ("const", "usize", "0", 0)), False)) if v else NONE, k) for v, c, k in split_bool(ge(1), known)]
+            if n == "last" and len(a) == 1:
+                return [Out(c, [], SOME(("ref", ("index", deref(sl), ("const", "usize", "-1", -1)), False)) if v else NONE, k) for v, c, k in split_bool(ge(1), known)]
+            if n == "is_empty" and len(a) == 1:
+                return [Out([], [], ("binop", "Eq", LEN, ("const", "usize", "0_usize", 0)))]
+            if n == "get" and len(a) == 2 and "::get::<usize>" in (full or ""):
+                lt = ("binop", "Lt", a[1], LEN)
+                return [Out(c, [], SOME(("ref", ("index", deref(sl), a[1]), False)) if v else NONE, k) for v, c, k in split_bool(lt, known)]
+        # ---- comparing an Ordering with a constant Ordering is a test of its discriminant ----
+        if path in ("std::cmp::PartialEq::eq", "std::cmp::PartialEq::ne", "core::cmp::PartialEq::eq", "core::cmp::PartialEq::ne") and len(a) == 2 and "std::cmp::Ordering as" in (full or ""):
+            x, y = deref(a[0]) if a[0][0] == "ref" else a[0], deref(a[1]) if a[1][0] == "ref" else a[1]
+            for u, w in ((x, y), (y, x)):
+                cv = ordering_const(w)
+                if cv is not None:
+                    return [Out([], [], ("binop", "Eq" if n == "eq" else "Ne", ("discr", u), ("const", "isize", str(cv), cv)))]
         if path == "core::bool::<impl bool>::then_some" or path_ends(path, "bool::then_some"):
             outs = []
             for v, c, k in split_bool(a[0], known):
